@@ -87,7 +87,7 @@ CHECKS = {
          "Read/range completeness and find_at on ascending layouts are checked by correspondence; binary search is modelled by "
          "the installed std algorithm. Open finding C11-region-order."),
  "C12": ("proof", "C12_per_variable: one shared Aho-Corasick automaton with de-duplicated atoms gives each string exactly the "
-         "result of scanning it alone, for every matcher kind, direct and fragmented; correspondence on pairs of rule sets built "
+         "result of scanning it alone, for every matcher kind, direct and fragmented; C12_union / C12_embedded / C12_order / C12_same_string: the results of a set of strings are unchanged by other strings compiled before, after or around it and by reordering; correspondence on pairs of rule sets built "
          "to collide on atoms, all interleavings for small sets.", "DESIGN.md §7 C12, notes/C12.md",
          "The rule-level union statement relies on C05 and is checked implementation against implementation."),
  "C13": ("proof", "Clone isolation over all histories of clone / define_symbol / set_scan_params / set_module_data / scan (each "
